@@ -71,7 +71,9 @@ func (e *Env) RunKessoku(dir string, args ...string) (int, string) {
 	cmd.Dir = dir
 	// GOMAXPROCS=2 for the CLI and the `go list` children it starts: many small processes in parallel
 	// run ~2x faster this way (measured); it does not change what they compute.
-	cmd.Env = GoEnv("GOMAXPROCS=2")
+	// (the CLI's package loader compiles export data for every package it is pointed at: tens of thousands of
+	// throw-away packages per corpus; they go to the bulk cache, which is reset regularly, not to the user's)
+	cmd.Env = BulkGoEnv("GOMAXPROCS=2")
 	var stderr bytes.Buffer
 	cmd.Stderr = &stderr
 	cmd.Stdout = &stderr
